@@ -21,6 +21,8 @@ def check(run):
                                                                     "refusal_changes_nothing", "every_other_entry_unchanged",
                                                                     "entry_filed_under_canonical_keys"))
     verify.verify(run, c.E, c.contracts["meth:images.Images._add_1_1"], crosscheck=False)
+    verify.verify(run, c.E, c.contracts["meth:rpms.Rpms.deserialize_0_3"])
+    verify.verify(run, c.E, c.contracts["gate:images.Images.deserialize"])
     IA.ast_only_writer(run, c.src, "images", "Images", "images", ["add"])
     IA.ast_only_writer(run, c.src, "rpms", "Rpms", "rpms", ["add", "deserialize_0_3", "deserialize_1_0"])
     with run.obligation("common.RPM_ARCHES#table_contains_documented_arches", "conc", ["productmd.common.RPM_ARCHES"]) as ob:
@@ -34,8 +36,9 @@ def check(run):
     contract_samples(run, c, ["meth:images.Images.add:1", "meth:rpms.Rpms.add"], limit=1500 if run.tier == "quick" else None)
     images_docs(run, c)
     rpms_docs(run, c)
-    run.note("Rpms.deserialize_1_0 stores the payload verbatim and is outside the claim (as the statement says); the 0.3 reader's triple loop is "
-             "covered by the bounded stand-in, its per-entry effect by the Rpms.add contract")
+    run.note("Rpms.deserialize_1_0 stores the payload verbatim and is outside the claim (as the statement says); the 0.3 reader is proved on a "
+             "legacy document with two binary arches sharing one source RPM ('src' first or last, all values symbolic): bounded in the number "
+             "of arches/records; its per-entry effect is the Rpms.add contract")
     run.note("_add_1_1 is proved for a document variant with arches {src, A, B} (A, B symbolic): bounded in the number of arches")
 
 
